@@ -257,3 +257,27 @@ func VerifPreprocess(src []byte, keepFmt bool) []byte {
 	p.cutFmt()
 	return append([]byte(nil), p.tpl...)
 }
+
+// VerifRegistryNames lists the names the parser asks the registries about while it parses:
+// registered modifiers (names and aliases), globals, and variables with a registered inspector.
+func VerifRegistryNames() (mods, globals, insVars []string) {
+	for k, idx := range modRegistry {
+		if idx >= 0 && idx < len(modBuf) && modBuf[idx].fn != nil {
+			mods = append(mods, k)
+		}
+	}
+	for k, idx := range globIdx {
+		if idx >= 0 && idx < len(globBuf) && globBuf[idx].val != nil {
+			globals = append(globals, k)
+		}
+	}
+	for k, idx := range varInsRegistry {
+		if idx >= 0 && idx < len(varInsBuf) {
+			insVars = append(insVars, k)
+		}
+	}
+	sort.Strings(mods)
+	sort.Strings(globals)
+	sort.Strings(insVars)
+	return
+}
